@@ -245,9 +245,9 @@ memory_free(void* address)
         "signal, and then nothing changed",                                                   \
         IMPL(RET == 0, (nbytes >= g_c.capacity || !g_c.is_accepting_writes) &&                \
                          ALL_SAME(g_s, g_c)))                                                 \
-    ENS("[C03.refuse-observed] once the refuse signal is observed under the lock the "       \
-        "writer returns no region",                                                           \
-        IMPL(nbytes < g_e.capacity && !g_s.is_accepting_writes, RET == 0))                    \
+    ENS("[C03.refuse-observed] a writer that could block (some reader exists) returns no "   \
+        "region once it observes the refuse signal under the lock",                           \
+        IMPL(nbytes < g_e.capacity && !g_s.is_accepting_writes && g_s.holds.n > 0, RET == 0)) \
     ENS("[C02.region-contiguous-in-bounds] the region is [head, mapped): contiguous, "       \
         "nbytes long, inside the buffer",                                                     \
         IMPL(RET != 0, RET == (void*)(g_c.data + g_c.head) &&                                 \
@@ -392,6 +392,17 @@ memory_free(void* address)
         D_FINAL_OK && IMPL(g_was_mapped, gh.notifies >= 1))                                   \
     ASG(g_c, g_s, g_last, gh, *reader)
 
+static size_t g_k; /* ghost byte index */
+#define CONTRACT_channel_new(REQ, ENS, ASG, FRE)                                              \
+    REQ(self == &g_c && capacity >= 1 && capacity <= CAP_MAX && g_k < capacity)               \
+    ENS("[C01.new-establishes-invariant] a new channel is empty, accepts writes, has no "    \
+        "readers and satisfies the invariant",                                                \
+        INV(g_c) && g_c.capacity == capacity && g_c.head == 0 && g_c.high == 0 &&             \
+          g_c.cycle == 0 && g_c.mapped == 0 && g_c.holds.n == 0 &&                            \
+          g_c.is_accepting_writes == 1 && g_c.data != 0)                                      \
+    ENS("[C10.ring-starts-zeroed] the buffer is zero-filled", g_c.data[g_k] == 0)             \
+    ASG(g_c, g_alloc_count)
+
 static int g_was_mapped;
 static size_t g_held_len;
 static int g_status0;
@@ -407,6 +418,8 @@ reader_min(const size_t* tails, const size_t* cycles, uint32_t n)
 static uint32_t
 next_write(const struct channel* self, size_t nbytes, size_t* beg, uint8_t* should_wrap)
   DFCC_CONTRACT(next_write);
+void
+channel_new(struct channel* self, size_t capacity) DFCC_CONTRACT(channel_new);
 void*
 channel_write_map(struct channel* self, size_t nbytes) DFCC_CONTRACT(channel_write_map);
 void
@@ -640,5 +653,62 @@ h_channel_read_unmap(void)
     VCOVER(g_was_mapped && YJ(g_c, gh.j) == YJ(g_e, gh.j) + 1, "lap roll-over on unmap");
     VCOVER(g_was_mapped && reader->pos == 0 && reader->cycle == YJ(g_e, gh.j) + 1, "lap-roll mapping released");
     VCOVER(!g_was_mapped, "unmapped reader");
+    H_END;
+}
+
+void
+h_channel_new(void)
+{
+    ghost_reset();
+    struct channel* self = &g_c;
+    size_t capacity = nd_ulong();
+    g_k = nd_ulong();
+#ifdef VERIF_NATIVE
+    VASSUME(capacity <= (1UL << 28));
+#endif
+    H_CALL(channel_new, channel_new(self, capacity));
+    VCOVER(capacity == CAP_MAX, "largest capacity");
+    H_END;
+}
+
+/* C03 progress lemma (loop-free, full-domain): a reader that keeps reading reaches the
+ * drained normal form (same lap, at the head) after at most three map/unmap-all rounds
+ * while the writer is idle -- from EVERY state satisfying the invariant. The real
+ * functions are executed, not their contracts. */
+void
+h_lemma_three_rounds_drain(void)
+{
+    struct channel* self = arb_channel();
+    gh.peer_mapped = 0;
+    struct channel_reader* reader = &g_reader;
+    reader->id = nd_uint();
+    reader->pos = nd_ulong();
+    reader->cycle = nd_ulong();
+    reader->status = Channel_Ok;
+    reader->state = ChannelState_Unmapped;
+    VASSUME(reader->id >= 1 && reader->id <= g_c.holds.n);
+    gh.j = reader->id - 1;
+    size_t unread0 = UNREADJ(g_c, gh.j);
+    size_t got = 0;
+    struct slice s;
+    s = channel_read_map(self, reader);
+    got += (size_t)(s.end - s.beg);
+    channel_read_unmap(self, reader, (size_t)(s.end - s.beg));
+    s = channel_read_map(self, reader);
+    got += (size_t)(s.end - s.beg);
+    channel_read_unmap(self, reader, (size_t)(s.end - s.beg));
+    s = channel_read_map(self, reader);
+    VASSERT(s.beg == s.end,
+            "[C03.bounded-drain,C06.flush-bounded] the third consecutive read of an idle "
+            "channel is empty");
+    VASSERT(got == unread0,
+            "[C03.bounded-drain,C01.drain-delivers-everything] two map/unmap rounds deliver "
+            "exactly the unread bytes");
+    VASSERT(YJ(g_c, gh.j) == g_c.cycle && PJ(g_c, gh.j) == g_c.head,
+            "[C03.bounded-drain] a drained reader ends in the writer's lap at the head, the "
+            "state in which next_write finds space (C03.progress-when-drained)");
+    VASSERT(WRITER_FIELDS_SAME(g_e, g_c), "[C01.frame] readers never move the writer's cursor");
+    VCOVER(unread0 > 0 && !SAME_LAP(g_e, 0) && gh.j == 0 && g_e.head > 0 && P_(g_e, 0) < g_e.high,
+           "two non-empty rounds");
     H_END;
 }
